@@ -174,6 +174,8 @@ class PathCtx(object):
             if self.fn_stack:
                 m.setdefault("in", self.fn_stack[-1])
             hyps = [h for h in using if not isinstance(h, bool)]
+            if getattr(self, "adopted_loops", False):
+                m["adopted"] = True
             self.obligations.append(Obligation(name, hyps, goal, m, list(self.script[:self.pos]), kind))
             if assume_after and as_const_bool(goal) is None:
                 self.pc.append(goal)
@@ -189,6 +191,8 @@ class PathCtx(object):
         m = dict(meta or {})
         if self.fn_stack:
             m.setdefault("in", self.fn_stack[-1])
+        if getattr(self, "adopted_loops", False):
+            m["adopted"] = True
         self.obligations.append(Obligation(name, list(self.pc), goal, m, list(self.script[:self.pos]), kind))
         if assume_after:
             c = as_const_bool(goal)
